@@ -139,6 +139,7 @@ func runC37(c *Ctx) {
 		"encoding/json.Marshal(string) is the JSON string encoder (invalid UTF-8 → U+FFFD)",
 		"time.Format(RFC3339Nano) output needs no JSON escaping and round-trips the instant",
 	}
+	c37Serialized(c, p)
 	skeletons := map[string]string{}
 	for _, d := range []string{"destinationStdout", "destinationFile"} {
 		fn := c.fn(p, "internal/logger", d, "log")
